@@ -1,8 +1,8 @@
 package main
 
 // sha256 of the go/printer text of the audited token constructors of lexer_participle.go
-// (audited at /repo b89a0b2; regenerate only after re-reading the changed function against c09LexAction and Model/Lexer.v)
-// encodeParseIndent re-audited at /repo 06b2b30 (adds a range error for indents above 1000000: an error path of the kind Model/Lexer.v does not model)
+// (audited at /repo 51a9ae2; regenerate only after re-reading the changed function against c09LexAction and Model/Lexer.v)
+// encodeParseIndent re-audited at /repo 5d1e45d (adds a range error for indents above 1000000: an error path of the kind Model/Lexer.v does not model)
 var lexHelperDigests = map[string]string{
 	"simpleOp": "e1565fd45f5c4d01cf6a6f223344092e8af2a0ec9f5982e232d54e1f3e035f25",
 	"assignableOp": "5e856306b86fa93a0d293d58167e70546dd80f5aa3b7ef84d9b6757cc1d08e94",
